@@ -28,7 +28,9 @@ for p in props:
             "design_ref": f"DESIGN.md section 2 ({pid}) and section 8",
         },
         "level_note": getattr(m, "LEVEL_NOTE", "; ".join(getattr(m, "ASSUMPTIONS", []))),
-        "technique": getattr(m, "TECHNIQUE", "property-based testing (Hypothesis) against a brute-force reference oracle"),
+        "technique": getattr(m, "TECHNIQUE", "property-based testing (Hypothesis strategies / exhaustive enumeration) against a brute-force reference oracle"
+                             + ("; thorough tier adds coverage-guided fuzzing (atheris/libFuzzer driving the same strategies through fuzz_one_input) on: "
+                                + ", ".join(s_.name for s_ in m.SUBCHECKS if s_.fuzz.get("thorough")) if any(s_.fuzz.get("thorough") for s_ in m.SUBCHECKS) else "")),
     })
 man = {
     "version": 1,
